@@ -34,7 +34,7 @@ def make_signal(family, seed, n=1500, fs=500.0, f=10.0):
     elif family == 'zeroed':
         sig = base + 0.1 * rng.randn(n)
         a = rng.randint(n // 4, n // 2)
-        sig[a:a + int(0.4 * fs)] = 0.0
+        sig[a:a + int(0.9 * fs)] = 0.0        # longer than the FIR filter: exact zeros in the band-passed signal
     elif family == 'dc':
         sig = base + 0.15 * rng.randn(n) + 7.5
     elif family == 'scaled':
